@@ -37,13 +37,22 @@ func litFieldStores(fn *ssa.Function, typeSuffix string) map[*ssa.Alloc]map[stri
 			}
 		}
 	}
-	eachInstr(fn, func(i ssa.Instruction) {
+	eachInstrDeep(fn, func(i ssa.Instruction) {
 		a, ok := i.(*ssa.Alloc)
 		if !ok {
 			return
 		}
-		if strings.HasSuffix(a.Type().(*types.Pointer).Elem().String(), typeSuffix) {
+		et := a.Type().(*types.Pointer).Elem()
+		if strings.HasSuffix(et.String(), typeSuffix) {
 			walk("", a, a)
+		}
+		// an element of a slice literal is built in place in the backing array
+		if arr, isArr := et.Underlying().(*types.Array); isArr && strings.HasSuffix(arr.Elem().String(), typeSuffix) && a.Referrers() != nil {
+			for _, r := range *a.Referrers() {
+				if ia, isIA := r.(*ssa.IndexAddr); isIA {
+					walk("", ia, a)
+				}
+			}
 		}
 	})
 	return out
@@ -186,6 +195,41 @@ func checkC18(c *Check) {
 			c.Ob("R2", fl.fn.Name()+": constructs "+fl.typ, fl.fn.Pos(), false, "no "+fl.typ+" literal found")
 		}
 	}
+	// milli-CPU notation ("1500m") is an integer number of units: it reaches the resource value without passing
+	// through floating point (which cannot represent every n/1000 and would change some values by one unit)
+	{
+		cq := l.Func("sdl", "cpuQuantity", "UnmarshalYAML")
+		c.Analysed(fnName(cq))
+		nm := 0
+		for _, g := range fnAndClosuresDeep(cq) {
+			eachInstr(g, func(i ssa.Instruction) {
+				st, ok := i.(*ssa.Store)
+				if !ok || Sym(st.Addr) != "p:u" {
+					return
+				}
+				// stores whose value can come from the integer parse of the text before the "m" suffix
+				milli := sliceHas(st.Val, map[ssa.Value]bool{}, 0, func(x ssa.Value) bool {
+					cv, isC := x.(*ssa.Call)
+					if !isC {
+						return false
+					}
+					full := calleeFull(cv)
+					if full != "strconv.ParseUint" && full != "strconv.ParseInt" && full != "strconv.Atoi" {
+						return false
+					}
+					a := Sym(cv.Call.Args[0])
+					return strings.Contains(a, "strings.TrimSuffix(") && strings.Contains(a, `"m"`)
+				})
+				if !milli {
+					return
+				}
+				nm++
+				fl := floatInSlice(st.Val, map[ssa.Value]bool{}, 0)
+				c.Ob("R2", "milli-CPU amounts are carried as integers", st.Pos(), fl == "", "the value written for the \"<n>m\" notation passes through "+fl+": some amounts come out one unit short of what was declared")
+			})
+		}
+		c.Ob("R2", "milli-CPU notation is recognised", cq.Pos(), nm >= 1, "no store of a value parsed from the text before the \"m\" suffix")
+	}
 	// group requirements
 	{
 		okA, okS := false, false
@@ -305,6 +349,32 @@ func checkC18(c *Check) {
 			}
 		}
 		c.Ob("R3", "an endpoint is counted exactly for globally exposed targets", dg.Pos(), glob, "")
+		// the translation (endpoint kinds in the deployment groups) and the provider's cross-validation of the manifest
+		// against those groups decide "served by the ingress controller or own port" with the same predicate
+		classifier := func(fn *ssa.Function) string {
+			var names []string
+			for _, call := range callsIn(fn, true) {
+				g := call.Common().StaticCallee()
+				if g == nil || g.Signature.Results().Len() != 1 || g.Signature.Results().At(0).Type().String() != "bool" || g.Signature.Params().Len() != 1 {
+					continue
+				}
+				if strings.HasSuffix(g.Signature.Params().At(0).Type().String(), "manifest.ServiceExpose") && !isNewFunc(g) {
+					names = append(names, fnName(g)) // new wrappers are looked through (callsIn is deep)
+				}
+			}
+			sort.Strings(names)
+			var uniq []string
+			for i, n := range names {
+				if i == 0 || names[i-1] != n {
+					uniq = append(uniq, n)
+				}
+			}
+			return strings.Join(uniq, ",")
+		}
+		vfn := l.Func("validation", "", "validateManifestDeploymentGroup")
+		c.Analysed(fnName(vfn))
+		cs, cv := classifier(dg), classifier(vfn)
+		c.Ob("R3", "deployment groups and manifest cross-validation classify exposes with the same predicate", vfn.Pos(), cs != "" && cs == cv, "translation uses ["+cs+"], validation uses ["+cv+"]: a document can translate into groups and a manifest that the provider's validation finds inconsistent")
 	}
 
 	// ---- R4 Read validates, Version hashes the manifest
@@ -590,4 +660,119 @@ func freshSliceResult(call *ssa.Call, k int, depth int) bool {
 		}
 	}
 	return true
+}
+
+// floatInSlice: a floating-point value in the backward slice of v (through conversions, arithmetic, phis, tuple
+// extraction and the results of new helpers); returns its description or "".
+func floatInSlice(v ssa.Value, seen map[ssa.Value]bool, depth int) string {
+	if v == nil || seen[v] || depth > 12 {
+		return ""
+	}
+	seen[v] = true
+	if b, ok := v.Type().Underlying().(*types.Basic); ok && b.Info()&types.IsFloat != 0 {
+		return short(Sym(v))
+	}
+	switch x := v.(type) {
+	case *ssa.Convert:
+		return floatInSlice(x.X, seen, depth+1)
+	case *ssa.ChangeType:
+		return floatInSlice(x.X, seen, depth+1)
+	case *ssa.BinOp:
+		if s := floatInSlice(x.X, seen, depth+1); s != "" {
+			return s
+		}
+		return floatInSlice(x.Y, seen, depth+1)
+	case *ssa.Phi:
+		for _, e := range x.Edges {
+			if s := floatInSlice(e, seen, depth+1); s != "" {
+				return s
+			}
+		}
+	case *ssa.Extract:
+		if cv, isC := x.Tuple.(*ssa.Call); isC {
+			if g := newHelperCallee(cv); g != nil {
+				for _, rv := range helperReturns(g, x.Index) {
+					if s := floatInSlice(rv, seen, depth+1); s != "" {
+						return s
+					}
+				}
+			}
+		}
+	case *ssa.Call:
+		if g := newHelperCallee(x); g != nil {
+			for _, rv := range helperReturns(g, 0) {
+				if s := floatInSlice(rv, seen, depth+1); s != "" {
+					return s
+				}
+			}
+		}
+	case *ssa.UnOp:
+		if a, isA := x.X.(*ssa.Alloc); isA && a.Referrers() != nil {
+			for _, r := range *a.Referrers() {
+				if st, isSt := r.(*ssa.Store); isSt && st.Addr == ssa.Value(a) {
+					if s := floatInSlice(st.Val, seen, depth+1); s != "" {
+						return s
+					}
+				}
+			}
+		}
+	}
+	return ""
+}
+
+// sliceHas: some value in the backward slice of v (conversions, arithmetic, phis, tuple extraction, locals, results of
+// new helpers) satisfies pred.
+func sliceHas(v ssa.Value, seen map[ssa.Value]bool, depth int, pred func(ssa.Value) bool) bool {
+	if v == nil || seen[v] || depth > 12 {
+		return false
+	}
+	seen[v] = true
+	if pred(v) {
+		return true
+	}
+	rec := func(x ssa.Value) bool { return sliceHas(x, seen, depth+1, pred) }
+	switch x := v.(type) {
+	case *ssa.Convert:
+		return rec(x.X)
+	case *ssa.ChangeType:
+		return rec(x.X)
+	case *ssa.BinOp:
+		return rec(x.X) || rec(x.Y)
+	case *ssa.Phi:
+		for _, e := range x.Edges {
+			if rec(e) {
+				return true
+			}
+		}
+	case *ssa.Extract:
+		if rec(x.Tuple) {
+			return true
+		}
+		if cv, isC := x.Tuple.(*ssa.Call); isC {
+			if g := newHelperCallee(cv); g != nil {
+				for _, rv := range helperReturns(g, x.Index) {
+					if rec(rv) {
+						return true
+					}
+				}
+			}
+		}
+	case *ssa.Call:
+		if g := newHelperCallee(x); g != nil {
+			for _, rv := range helperReturns(g, 0) {
+				if rec(rv) {
+					return true
+				}
+			}
+		}
+	case *ssa.UnOp:
+		if a, isA := x.X.(*ssa.Alloc); isA && a.Referrers() != nil {
+			for _, r := range *a.Referrers() {
+				if st, isSt := r.(*ssa.Store); isSt && st.Addr == ssa.Value(a) && rec(st.Val) {
+					return true
+				}
+			}
+		}
+	}
+	return false
 }
